@@ -88,6 +88,11 @@ def no_narrowing(ck, rule, modules=("src.parsers.cmap_reader", "src.parsers.bion
                 if isinstance(txt, str) and txt in NARROW and "float" not in txt and txt not in ("half", "single"):
                     narrow_ints.append(f"{m.relpath}:{getattr(node, 'lineno', 1)}: {txt}")      # exact for small counts and channels
                 elif isinstance(txt, str) and txt in NARROW:
+                    if _table_out_of_use(ck, m, node, fns):
+                        ck.ok(rule, f"{mname.split('.')[-1]}:class-or-module-level:narrow-type:out-of-use",
+                              f"{m.relpath}:{getattr(node, 'lineno', 1)}",
+                              "a type table naming a narrow float is read only behind an optional parameter that no call site passes")
+                        continue
                     n_float_narrow[0] += 1
                     ck.violation(rule, f"{mname.split('.')[-1]}:class-or-module-level:narrow-type", f"{m.relpath}:{getattr(node, 'lineno', 1)}",
                                  "a narrow numeric type is named in a class-level or module-level table of the reader chain: whatever "
@@ -100,6 +105,66 @@ def no_narrowing(ck, rule, modules=("src.parsers.cmap_reader", "src.parsers.bion
     ck.floor(f"{rule} class-level / module-level nodes inspected in the reader chain", n_outer, 10)
     ck.floor(f"{rule} calls inspected in the reader chain", n, floor)
     ck.ok(rule, "reader-chain:precision", fns[0].where if fns else "", f"{n} calls in the CMAP reader chain: no narrowing conversion of coordinates")
+
+
+def _table_out_of_use(ck, m, node, fns) -> bool:
+    """The narrow type sits in a class-level / module-level `NAME = <table>`; every read of NAME in the functions of the reader chain
+    lies in the taken branch of a test on an optional parameter (default None) of its function that no call site outside the tests
+    passes. Then nothing is read through the table today (an extension point nobody uses yet); as soon as one caller passes the
+    parameter the table is in use and is reported. Anything else - no simple NAME, a read elsewhere, no read at all - is 'in use'."""
+    holder = None
+    for st in ast.walk(m.tree):
+        if isinstance(st, (ast.Assign, ast.AnnAssign)) and st.value is not None and any(x is node for x in ast.walk(st.value)):
+            tgts = st.targets if isinstance(st, ast.Assign) else [st.target]
+            if len(tgts) == 1 and isinstance(tgts[0], ast.Name):
+                holder = tgts[0].id
+    if holder is None:
+        return False
+    n_reads = 0
+    for f in fns:
+        parents = {}
+        for x in ast.walk(f.node):
+            for ch in ast.iter_child_nodes(x):
+                parents[ch] = x
+        reads = [x for x in ast.walk(f.node) if (isinstance(x, ast.Attribute) and x.attr == holder and isinstance(x.ctx, ast.Load)) or
+                 (isinstance(x, ast.Name) and x.id == holder and isinstance(x.ctx, ast.Load))]
+        if not reads:
+            continue
+        params = {pp.name: (i, pp) for i, pp in enumerate(f.call_params())}
+        sites = [s_ for s_ in ck.ctx.cg.sites_calling(f) if not s_.caller.module.is_test]
+        unused = set()
+        for name, (i, pp) in params.items():
+            if not (isinstance(pp.default, ast.Constant) and pp.default.value is None):
+                continue
+            passed = not sites
+            for s_ in sites:
+                if any(isinstance(a, ast.Starred) for a in s_.node.args) or any(k.arg is None for k in s_.node.keywords) \
+                        or len(s_.node.args) > i or any(k.arg == name for k in s_.node.keywords):
+                    passed = True
+            if not passed:
+                unused.add(name)
+        for r in reads:
+            n_reads += 1
+            guarded = False
+            cur = r
+            while cur in parents:
+                par = parents[cur]
+                if isinstance(par, (ast.IfExp, ast.If)):
+                    in_body = cur is par.body if isinstance(par, ast.IfExp) else any(cur is b for b in par.body)
+                    t = par.test
+                    pname = t.id if isinstance(t, ast.Name) else (
+                        t.left.id if isinstance(t, ast.Compare) and isinstance(t.left, ast.Name) and len(t.ops) == 1 and
+                        isinstance(t.ops[0], ast.IsNot) and isinstance(t.comparators[0], ast.Constant) and t.comparators[0].value is None
+                        else None)
+                    if in_body and pname in unused:
+                        # the parameter must not be rebound in the function
+                        rebound = any(isinstance(x, ast.Name) and x.id == pname and isinstance(x.ctx, ast.Store) for x in ast.walk(f.node))
+                        guarded = not rebound
+                        break
+                cur = par
+            if not guarded:
+                return False
+    return n_reads > 0
 
 
 ROW_CHANGING = {"drop_duplicates": "drops rows that agree on the compared columns",
